@@ -61,6 +61,17 @@ ReachN(g, S, n) == IF n = 0 THEN S ELSE ReachN(g, S \cup UNION {g[i] : i \in S},
 Reach(g, i) == ReachN(g, g[i], NFiles)        \* files reachable from i by one or more imports
 Cyclic(g, start) == \E i \in {start} \cup Reach(g, start) : i \in Reach(g, i)
 
+\* ---- nested module roots: a rooted import resolves against the NEAREST sentinel above the importer ----
+DirPrefixes(dir) == {SubSeq(dir, 1, k) : k \in 1..Len(dir)}
+NearestRoot(sent, dir) ==
+  LET cands == DirPrefixes(dir) \cap sent IN
+  IF cands = {} THEN Reject ELSE CHOOSE r \in cands : \A q \in cands : Len(q) <= Len(r)
+LayoutCase == /\ case.k = "none" /\ UNCHANGED done
+              /\ \E sent \in SUBSET ImporterDirs, d1 \in ImporterDirs, d2 \in ImporterDirs, first \in BOOLEAN :
+                   /\ IsPrefix(d1, d2)
+                   /\ case' = [k |-> "layout", sent |-> sent, d1 |-> d1, d2 |-> d2, first |-> first,
+                               r1 |-> NearestRoot(sent, d1), r2 |-> NearestRoot(sent, d2)]
+
 Init == case = [k |-> "none"] /\ done = FALSE
 PathCase == /\ case.k = "none" /\ UNCHANGED done
             /\ \E form \in {"rel", "root"}, dir \in ImporterDirs, segs \in PathSeqs, mod \in BOOLEAN :
@@ -72,9 +83,10 @@ GraphCase == /\ case.k = "none" /\ UNCHANGED done
                            cyclic |-> Cyclic(g, start), reach |-> Reach(g, start)]
 Emit == /\ case.k # "none" /\ ~done /\ done' = TRUE /\ UNCHANGED case
         /\ PrintT(ToJson([spec |-> "Imports", c |-> case]))
-Next == PathCase \/ GraphCase \/ Emit
+Next == PathCase \/ GraphCase \/ LayoutCase \/ Emit
 Spec == Init /\ [][Next]_vars
 
+NearestInv == case.k = "layout" => (case.r2 # Reject => IsPrefix(case.r2, case.d2) /\ (case.r1 # Reject => IsPrefix(case.r1, case.r2)))
 ConfinedInv == case.k = "path" => (case.target # Reject => IsPrefix(case.base, case.target))
 \* a rooted import never leaves the root however many ".." it has; a relative one that does is rejected
 ClampInv == case.k = "path" /\ case.form = "root" /\ case.mod => IsPrefix(Root, case.target)
